@@ -95,7 +95,9 @@ Qed.
 Lemma no_candidate_spec c s : match no_candidate c s with SSent _ _ _ => False | SDone _ evs => n_attempts evs = 0 /\ n_rearms evs = 0 end.
 Proof.
   unfold no_candidate. destruct (any_pending s); auto.
-  destruct (backoff c BoBusy s) as [[s' e]|] eqn:B; auto. apply backoff_frame in B as (_ & _ & _ & _ & sl & ->). auto.
+  destruct (backoff c BoBusy s) as [s' e| |e] eqn:B; auto.
+  - apply backoff_frame in B as (_ & _ & _ & _ & sl & ->). auto.
+  - apply backoff_killed in B as (sl & ->). auto.
 Qed.
 
 Lemma proxy_next_via s p : proxy_next s = PxVia p -> p <> leader s /\ att_at s p < 1.
@@ -137,7 +139,7 @@ Proof.
          subst s3. unfold room, atts at 1, upd_rep. cbn [reps set_reps]. apply room_upd_inc. fold (atts sa). fold (att_at sa p).
          rewrite Pa. unfold max_replica_attempt. lia. }
        destruct (pending (rep_at s3 (leader s1))).
-       - destruct (backoff c BoBusy _) as [[s4 e]|] eqn:B; [|auto].
+       - destruct (backoff c BoBusy _) as [s4 e| |e] eqn:B; [|auto|apply backoff_killed in B as (sl & ->); auto].
          apply backoff_frame in B as (Hr & _ & _ & _ & sl & ->). split; [|auto].
          assert (room s4 = room s3); [|lia]. unfold room, atts. rewrite Hr. fold (atts (upd_rep (leader s1) (set_pending false) s3)). atts_norm. reflexivity.
        - auto. }
@@ -151,7 +153,7 @@ Proof.
   { apply Nat.eq_le_incl. subst s3. unfold room, atts at 1, upd_rep. cbn [reps set_reps]. rewrite <- E1, <- E2. apply room_upd_inc.
     fold (atts s2). rewrite E2. exact A. }
   destruct (pending (rep_at s3 t)).
-  - destruct (backoff c BoBusy _) as [[s4 e]|] eqn:B; [|auto].
+  - destruct (backoff c BoBusy _) as [s4 e| |e] eqn:B; [|auto|apply backoff_killed in B as (sl & ->); auto].
     apply backoff_frame in B as (Hr & _ & _ & _ & sl & ->). split; [|auto].
     assert (room s4 = room s3); [|lia]. unfold room, atts. rewrite Hr. fold (atts (upd_rep t (set_pending false) s3)). atts_norm. reflexivity.
   - auto.
